@@ -198,13 +198,16 @@ def Span.has (sp : Span) (p : Nat) : Prop := sp.lo ≤ p ∧ p < sp.hi
 
 /-- The two compiler facts the end-to-end claim rests on. `stmtOf p` is the span of the innermost
 statement whose compilation emitted the instruction at `p`.
-* `entry_in_stmt` (srcmap_complete): every instruction has an entry and it lies in its statement;
+* `entry_in_stmt` (srcmap_complete): every instruction that can fail and has operand bytes has an entry and it
+  lies in its statement (instructions that cannot fail may carry `NoPos`, e.g. the `CONST 1` of `x++`, or no
+  entry at all, e.g. main's final SUSPEND);
 * `first_instr_safe`: an instruction whose errors are reported through its predecessor HAS a
   predecessor, and that predecessor's entry lies in the same statement.
 The compiler is not modelled in this package; both are checked on every function of every generated
 program by the `static` stream (real compiler, real parser spans). -/
 structure StmtAttribution (is : List Instr) (sm : SrcMap) (stmtOf : Nat → Span) : Prop where
-  entry_in_stmt : ∀ x ∈ is, ∃ s, sm.lookup x.pos = some s ∧ (stmtOf x.pos).has s
+  entry_in_stmt : ∀ x ∈ is, (∃ a, advanceOf x.op = some a) → x.size ≠ 1 →
+    ∃ s, sm.lookup x.pos = some s ∧ (stmtOf x.pos).has s
   first_instr_safe : ∀ x ∈ is, advanceOf x.op = some 0 →
     ∃ w ∈ is, w.pos + w.size = x.pos ∧ ∃ t, sm.lookup w.pos = some t ∧ (stmtOf x.pos).has t
 
@@ -219,7 +222,7 @@ theorem error_pos_in_stmt_partial {s0 : Nat} {is : List Instr} {sm : SrcMap} {st
     subst h0
     obtain ⟨w, hw, hadj, t, ht, hin⟩ := hc.first_instr_safe x hx ha
     exact ⟨t, error_report_prev hl ho ha hw hadj ht, hin⟩
-  · obtain ⟨s, hs, hin⟩ := hc.entry_in_stmt x hx
+  · obtain ⟨s, hs, hin⟩ := hc.entry_in_stmt x hx ⟨a, ha⟩ h1
     exact ⟨s, error_report_own hl ho hx hs ha h1, hin⟩
 
 /-! ## 4. Frames -/
@@ -384,7 +387,7 @@ example : sourcePos exFsm 7 = 40 ∧ sourcePos exFsm 5 = 45 ∧ sourcePos exFsm 
 /-- Statement attribution for the example: one statement `return -a + 1` spanning [33, 50). -/
 example : StmtAttribution exF exFsm (fun _ => ⟨33, 50⟩) := by
   constructor
-  · intro x hx
+  · intro x hx _ _
     simp only [exF, List.mem_cons, List.not_mem_nil, or_false] at hx
     rcases hx with rfl | rfl | rfl | rfl | rfl
     · exact ⟨41, by decide, by decide, by decide⟩
